@@ -187,7 +187,15 @@ Program gen_program(uint64_t seed, const GenParams &gp, const std::string &profi
     int np = p.cfg.sim.nprocs;
     Model gm; gm.init(np, gp.multi_file ? 3 : 1); gm.cur_ops = &p.ops; gm.strict_iget_overlap = (p.cfg.flags & 1) != 0; gm.bb_rules = gp.bb; { auto sm = p.cfg.sim.env.find("PNETCDF_SAFE_MODE"); gm.safe_mode = (sm != p.cfg.sim.env.end() && sm->second != "0"); } { auto h = p.cfg.sim.env.find("PNETCDF_HINTS"); gm.aggr_env = (h != p.cfg.sim.env.end() && h->second.find("nc_num_aggrs_per_node") != std::string::npos); }
     auto it = p.cfg.sim.env.find("PNETCDF_RELAX_COORD_BOUND"); gm.strict_coord = (it != p.cfg.sim.env.end() && it->second == "0");
-    auto emit = [&](Op op) -> bool { p.ops.push_back(op); gm.cur_ops = &p.ops; bool ok = model_step(gm, p.ops.back()); if (!ok) { p.ops.pop_back(); gm.opidx--; } return ok; };
+    auto emit = [&](Op op) -> bool {
+        if (gp.invalid_args && gm.safe_mode && np > 1 && (op.kind == OP_DEF_DIM || op.kind == OP_DEF_VAR || op.kind == OP_RENAME_DIM || op.kind == OP_RENAME_VAR || op.kind == OP_PUT_ATT || op.kind == OP_ENDDEF2) && rng.chance(0.2)) {
+            // safe mode (C08): one rank disagrees on a name or a value of a collective metadata call
+            op.alt_rank = (int)rng.below(np);
+            bool by_name = op.kind == OP_PUT_ATT || op.kind == OP_RENAME_DIM || op.kind == OP_RENAME_VAR || (op.kind != OP_ENDDEF2 && rng.chance(0.5));
+            if (by_name) op.alt_name = ((op.kind == OP_RENAME_DIM || op.kind == OP_RENAME_VAR) ? op.name2 : op.name) + "_z";
+            else op.alt_val = op.kind == OP_DEF_DIM ? op.a[0] + 1 : op.kind == OP_DEF_VAR ? (op.a[0] == NC_INT ? NC_FLOAT : NC_INT) : op.a[1] + 4;
+        }
+        p.ops.push_back(op); gm.cur_ops = &p.ops; bool ok = model_step(gm, p.ops.back()); if (!ok) { p.ops.pop_back(); gm.opidx--; } return ok; };
     auto checkpoint = [&]() { Op o; o.kind = OP_CHECKPOINT; emit(o); };
     int nfiles = gp.multi_file ? (int)rng.range(1, 3) : 1;
     int ndim_ctr = 0, nvar_ctr = 0, natt_ctr = 0;
